@@ -18,7 +18,7 @@ import (
 
 func init() {
 	register(&Prop{
-		ID: "C19", Level: "fault_enumeration", Quick: 80 * 21, Thorough: 2500 * 21,
+		ID: "C19", Level: "fault_enumeration", Quick: 80 * 24, Thorough: 2500 * 24,
 		Rule:        "trial = (command form, generated valid input); every Write call index k=1..W+1 of the fault-free run x {write_error_once, write_error_sticky, short_write} (+ every Create for toPairAlign directory output) is enumerated, each under several seeded schedules; a trial is non-trivial if at least one injected fault actually fired; distinct = distinct (input, options)",
 		Gen:         genC19,
 		Check:       checkC19,
@@ -30,12 +30,18 @@ func init() {
 }
 
 // the command forms C19 ranges over: the library entry points, and the real command line writing to --outfile
-var c19Forms = append(append([]string{}, allCmds...), "cli-o:toma", "cli-o:variants", "cli-o:samvariants", "cli-o:snps", "cli-o:snps-agg", "cli-o:closest", "cli-o:closestn", "cli-o:updownlist", "cli-o:topranking")
+var c19Forms = append(append([]string{}, allCmds...), "cli-o:toma", "cli-o:variants", "cli-o:samvariants", "cli-o:snps", "cli-o:snps-agg", "cli-o:closest", "cli-o:closestn", "cli-o:updownlist", "cli-o:topranking", "indels", "cli:indels")
 
 func genC19(r *Rand, tier string, ord int) *Trial {
 	form := c19Forms[ord%len(c19Forms)]
 	var c *Case
-	if strings.HasPrefix(form, "cli-o:") {
+	if form == "cli:indels" {
+		cc, ok := cliCase(genCmdCase(r, "indels", caseSize{}))
+		if !ok {
+			return nil
+		}
+		c = cc
+	} else if strings.HasPrefix(form, "cli-o:") {
 		pk := genCmdCase(r, strings.TrimPrefix(form, "cli-o:"), caseSize{})
 		cc, ok := cliCase(pk)
 		if !ok {
@@ -69,6 +75,14 @@ func genC19(r *Rand, tier string, ord int) *Trial {
 			wOut++
 		} else {
 			wFiles++
+		}
+	}
+	if strings.HasSuffix(form, "indels") {
+		// `sam indels` prints a deprecation notice on standard output and writes its two tables to files:
+		// the notice is not the command's output, only the file writes are enumerated
+		wOut = 0
+		if form == "indels" {
+			nCreate = 0
 		}
 	}
 	add := func(f Fault) {
